@@ -102,6 +102,117 @@ func c07run(ctx *vc.Ctx) {
 		{q: 0, from: "g", payload: "late", late: true},
 	}
 	c07explore(ctx, "1query/overflow", 1, over, bound-1)
+	c07afterRefused(ctx, bound-1)
+}
+
+// c07afterRefused: a query that is refused (over the size limit, short timeout) leaves nothing behind:
+// the node's next query (longer timeout) stays open until ITS deadline, replies that arrive before it
+// are delivered, and its streams are closed once, at its own deadline.
+func c07afterRefused(ctx *vc.Ctx, bound int) {
+	var refusedErr, qerr error
+	var openAtMid, inWindow bool
+	var deadline int64
+	var acks []string
+	var resps []serf.NodeResponse
+	var ackOpen, respOpen bool
+	body := func() {
+		vsched.Branching(false)
+		refusedErr, qerr, openAtMid, inWindow, deadline, acks, resps = nil, nil, false, false, 0, nil, nil
+		vsched.SetHorizon(int64(10 * time.Second))
+		n, err := world.NewNode("a", 0)
+		if err != nil {
+			panic(err)
+		}
+		meta := serf.VEncodeTags(n.S, nil)
+		if _, err := n.KnowPeers([]world.Peer{world.AlivePeer("b", 1, meta), world.AlivePeer("c", 2, meta)}, nil); err != nil {
+			panic(err)
+		}
+		vsched.Quiesce()
+		n.Outbox()
+		// timers fire in time order only (no early firing here): the delivery at 500 ms then lies
+		// inside the second query's window for certain, so its arrival can be demanded
+		vsched.Branching(true)
+		var resp *serf.QueryResponse
+		ready := false
+		app := vsched.Spawn("app", func() {
+			_, refusedErr = n.S.Query("too-big", make([]byte, 4000), &serf.QueryParam{RequestAck: true, Timeout: 200 * time.Millisecond})
+			deadline = vsched.Elapsed() + int64(time.Second)
+			resp, qerr = n.S.Query("q1", []byte("p"), &serf.QueryParam{RequestAck: true, Timeout: time.Second})
+			ready = true
+		})
+		net := vsched.Spawn("network", func() {
+			vsched.Point(vsched.KJoin, "wait-query", func() bool { return ready })
+			if qerr != nil {
+				return
+			}
+			vsched.Sleep(int64(500*time.Millisecond), "until-mid-window")
+			// (an explored early firing of a timer moves virtual time forward: only a delivery that
+			// really happens before the query's own deadline is required to arrive)
+			inWindow = vsched.Elapsed() < deadline
+			openAtMid = !resp.Finished()
+			lt, id := serf.VQueryInfo(resp)
+			for _, ack := range []bool{true, false} {
+				m := serf.VMessageQueryResponse{LTime: serf.LamportTime(lt), ID: id, From: "b", Payload: []byte("x")}
+				if ack {
+					m.Flags, m.Payload = serf.VQueryFlagAck, nil
+				}
+				n.Delegate().NotifyMsg(serf.VEncode(serf.VMsgQueryResponse, &m))
+			}
+		})
+		app.Join()
+		net.Join()
+		vsched.TimerChoice(false)
+		vsched.Branching(false)
+		vsched.Advance(int64(3 * time.Second))
+		if resp != nil {
+			ackOpen = c07drain(resp.AckCh(), func(s string) { acks = append(acks, s) })
+			respOpen = c07drain(resp.ResponseCh(), func(r serf.NodeResponse) { resps = append(resps, r) })
+		}
+		n.S.Shutdown()
+	}
+	check := func(x *vsched.Exec) (string, string, string) {
+		if len(x.Panics) > 0 {
+			p := x.Panics[0]
+			return "panic", "panic " + p.Value + " in " + p.Frame, p.Value + "\n" + p.Stack
+		}
+		if !x.RootDone {
+			return "stuck", "deadlock", fmt.Sprintf("blocked: %+v", x.Blocked)
+		}
+		if refusedErr == nil {
+			return "harness", "harness: the oversize query was not refused", "a 4000-byte query was accepted"
+		}
+		if qerr != nil {
+			return "query-error", "query-after-refused-query-failed", fmt.Sprintf("the query issued after a refused one returned %v", qerr)
+		}
+		if !inWindow {
+			if ackOpen || respOpen {
+				return "not-closed", "streams-not-closed-after-timeout", fmt.Sprintf("ack stream open=%v response stream open=%v after 3 s", ackOpen, respOpen)
+			}
+			return "delivery-after-deadline (timer fired early)", "", ""
+		}
+		if !openAtMid {
+			return "closed-early", "query-finished-before-its-deadline", "a query with a 1 s timeout, issued right after a refused query with a 200 ms timeout, reports Finished() after 500 ms"
+		}
+		hasAck, hasResp := false, false
+		for _, a := range acks {
+			if a == "b" {
+				hasAck = true
+			}
+		}
+		for _, r := range resps {
+			if r.From == "b" {
+				hasResp = true
+			}
+		}
+		if !hasAck || !hasResp {
+			return "reply-lost", "reply-before-deadline-not-delivered", fmt.Sprintf("ack and response from b arrived 500 ms into a 1 s query (issued after a refused query); streams carried acks %v, responses %v", acks, resps)
+		}
+		if ackOpen || respOpen {
+			return "not-closed", "streams-not-closed-after-timeout", fmt.Sprintf("ack stream open=%v response stream open=%v after 3 s", ackOpen, respOpen)
+		}
+		return fmt.Sprintf("acks=%v resps=%d", acks, len(resps)), "", ""
+	}
+	ctx.Explore(vc.ExploreOpts{Name: "query-after-refused-query", Bound: bound, MaxSteps: 50000}, body, check)
 }
 
 func c07explore(ctx *vc.Ctx, name string, nq int, script []c07reply, bound int) {
